@@ -1116,3 +1116,26 @@ Proof. vm_compute. split; reflexivity. Qed.
 (** [scope_wf] holds of every built context (so push_shadows applies). *)
 Example ex_scope_wf : scope_wf (build (ex_layers 0)).
 Proof. intros a H. vm_compute in H. vm_compute. intuition (subst; repeat constructor). Qed.
+
+(** The hypotheses of [shadowing_restored] hold of a body that shadows again,
+    writes other names and nests; the name really is shadowed inside. *)
+Example ex_shadowing_premises :
+  let body : list (op N) :=
+    [Lookup s_now; Assign ex_x (Data 9); Extend [(s_now, Data 8)] [Lookup s_now; Incr ex_x]] in
+  forallb scoped body = true /\ existsb (writes s_now) body = false
+  /\ st_lookup (build (ex_layers 1)) s_now = Some (Data 2)
+  /\ st_lookup (st_push (build (ex_layers 1)) [(s_now, Data 1)]) s_now = Some (Data 1)
+  /\ st_lookup (state_of (exec 30 (Extend [(s_now, Data 1)] body) (build (ex_layers 1)))) s_now
+     = Some (Data 2)
+  /\ st_lookup (state_of (exec 30 (Extend [(s_now, Data 1)] body) (build (ex_layers 1)))) ex_x
+     = Some (Data 9).
+Proof. vm_compute. repeat split. Qed.
+
+(** Inside a copied ({% render %}) context the parent's block scope, locals
+    and counters are gone; the tag arguments come first. *)
+Example ex_copy :
+  st_lookup (build (ex_layers 0)) s_now = Some (Data 1)
+  /\ st_lookup (ctx_copy (build (ex_layers 0)) [(ex_x, Data 7)]) s_now = Some (Data 3)
+  /\ st_lookup (ctx_copy (build (ex_layers 0)) [(ex_x, Data 7)]) ex_x = Some (Data 7)
+  /\ st_lookup (ctx_copy (st_push (ctx_copy (build (ex_layers 0)) [(ex_x, Data 7)]) []) []) ex_x = None.
+Proof. vm_compute. repeat split. Qed.
